@@ -77,6 +77,8 @@ def determinism(argv):
 def _props_for(name, meta):
     if meta and meta.get("properties"):
         return meta["properties"]
+    if meta and meta.get("property"):
+        return [meta["property"]]
     head = name.split("-")
     return [h.upper() for h in head if h.upper() in ("C01", "C11", "C17")]
 
